@@ -225,7 +225,7 @@ func (t *Tr) alloc(in *ssa.Alloc) {
 	a := t.addrOfTerm(ref, elem)
 	t.zeroInit(t.cur, a)
 	t.allocInvs(a)
-	if !in.Heap {
+	if !in.Heap || closureOnly(in) {
 		t.locals = append(t.locals, in)
 	}
 	if in.Comment != "" && in.Comment != "complit" && in.Comment != "varargs" && in.Comment != "new" {
@@ -254,6 +254,35 @@ func (t *Tr) allocInvs(a *Addr) {
 	for i := 0; i < stt.NumFields(); i++ {
 		t.allocInvs(t.fieldAddr(a.Ty, i, a.Obj))
 	}
+}
+
+// closureOnly: a variable boxed only because closures of this function capture
+// it: its address is never stored, passed to a call or converted. Such a box
+// can be written only by this function and those closures.
+func closureOnly(a *ssa.Alloc) bool {
+	refs := a.Referrers()
+	if refs == nil {
+		return false
+	}
+	captured := false
+	for _, r := range *refs {
+		switch r := r.(type) {
+		case *ssa.UnOp:
+			if r.Op != token.MUL {
+				return false
+			}
+		case *ssa.Store:
+			if r.Val == ssa.Value(a) {
+				return false
+			}
+		case *ssa.FieldAddr, *ssa.IndexAddr, *ssa.DebugRef:
+		case *ssa.MakeClosure:
+			captured = true
+		default:
+			return false
+		}
+	}
+	return captured
 }
 
 // escapes: is the address used other than as the target of loads, stores and
@@ -366,6 +395,12 @@ func (t *Tr) indexAddr(in *ssa.IndexAddr) {
 func (t *Tr) unop(in *ssa.UnOp) {
 	switch in.Op {
 	case token.MUL: // load
+		if g, ok := in.X.(*ssa.Global); ok && g.Pkg != nil && t.w.roGlobal[globalKey(g.Pkg.Pkg, g.Name())] {
+			// a global assigned only by package initialisers: a constant of the run
+			x := t.roGlobalVal(globalKey(g.Pkg.Pkg, g.Name()), in.Type())
+			t.vals[in] = x
+			return
+		}
 		t.nilCheck(in.X, in.Pos())
 		a := t.addrOf(in.X)
 		if g, ok := in.X.(*ssa.Global); ok {
@@ -590,7 +625,10 @@ func (t *Tr) ret(in *ssa.Return) {
 		if v.Sort != t.vc.sortOf(ty) {
 			v = t.vc.zeroOf(ty)
 		}
-		for _, n := range names[i] {
+		for k, n := range names[i] {
+			if _, isParam := t.paramEnv[n]; isParam && k > 0 {
+				continue // an alias (err, result) never shadows a parameter of that name
+			}
 			env.vars[n] = Val{T: v, Ty: ty}
 		}
 	}
@@ -805,10 +843,13 @@ func (t *Tr) convert(in *ssa.Convert) {
 		t.heapSet(t.cur, hn, hs, fmt.Sprintf("(store %s %s %s)", h, ref, arr))
 		t.setVal(in, fmt.Sprintf("(mk-slice %s 0 (strlen %s) (strlen %s))", ref, x.S, x.S))
 	case isByteSlice(from) && isStringType(to):
+		// string(b): a function of the slice header (contents are linked below and
+		// assumed not to change while the string is compared with the slice)
 		t.vc.needStr()
+		t.vc.declFun("str_of", "(declare-fun str_of (Slice) Int)")
 		et := from.Underlying().(*types.Slice).Elem()
 		h := t.heapGet(t.cur, elemHeapName(et), t.elemHeapSort(et))
-		v := t.havocVal(in)
+		v := t.setVal(in, fmt.Sprintf("(str_of %s)", x.S))
 		t.assume(fmt.Sprintf("(= (strlen %s) (s-len %s))", v.S, x.S))
 		t.assume(fmt.Sprintf("(forall ((i Int)) (! (=> (and (<= 0 i) (< i (s-len %[2]s))) (= (strat %[1]s i) (select (select %[3]s (s-base %[2]s)) (+ (s-off %[2]s) i)))) :pattern ((strat_raw %[1]s i))))", v.S, x.S, h))
 	case t.vc.sortOf(from) == t.vc.sortOf(to) && t.vc.sortOf(to) != "TUPLE" && !isStringType(to):
@@ -1070,4 +1111,33 @@ func (t *Tr) isNoEffect(key string) bool {
 		return true
 	}
 	return false
+}
+
+// roGlobalVal: the (constant) value of a read-only global.
+func (t *Tr) roGlobalVal(key string, ty types.Type) Term {
+	s := t.vc.sortOf(ty)
+	name := "gconst_" + mangle(shortKey(key))
+	if !t.vc.funSeen[name] {
+		t.vc.declFun(name, fmt.Sprintf("(declare-const %s %s)", name, s))
+		if f := t.vc.typeFact(Term{name, s}, ty); f != "" {
+			t.vc.FunDecl = append(t.vc.FunDecl, fmt.Sprintf("(assert %s)", f))
+		}
+		// it was allocated before the function started
+		switch ty.Underlying().(type) {
+		case *types.Pointer, *types.Map, *types.Chan:
+			t.assumeRaw(fmt.Sprintf("(< %s %s)", name, t.next(t.entry0())))
+		case *types.Slice:
+			t.assumeRaw(fmt.Sprintf("(< (s-base %s) %s)", name, t.next(t.entry0())))
+		case *types.Interface:
+			t.assumeRaw(fmt.Sprintf("(< (i-val %s) %s)", name, t.next(t.entry0())))
+		}
+	}
+	return Term{name, s}
+}
+
+func (t *Tr) entry0() *State {
+	if t.entry != nil {
+		return t.entry
+	}
+	return t.cur
 }
